@@ -11,7 +11,7 @@ for f in sorted(glob.glob(V + "/seeded/*/meta.json") + glob.glob(V + "/selfseede
     d = os.path.dirname(f)
     if only and m["id"] not in only:
         continue
-    prop = m["property"]
+    prop = m.get("check_with") or m["property"]
     expected = (m.get("checked", {}).get("result") or m.get("result") or "")
     r = subprocess.run([sys.executable, V + "/ctl/mutate.py", d + "/patch.diff", prop, "quick"], capture_output=True, text=True)
     line = (r.stdout.strip().splitlines() or ["?"])[0]
